@@ -541,7 +541,10 @@ def run_tree_cases(ctx, ntrees, npat, fixed=None):
             make_tree(tree, tmp)
             with contextlib.chdir(tmp):
                 for p, subs in pats:
-                    if not in_domain(p) or any(not in_domain(v) for v in subs.values() if v):
+                    if not in_domain(p) or any(not in_domain(v) for v in subs.values() if v) \
+                            or not in_domain(expand_subs(p, subs)):
+                        # the last test: a sub-pattern such as `**/` before a separator spells an empty
+                        # inner component (`.hi${*m}/x` with m = `**/` reads `.hi**//x`)
                         ctx.count("tree_skipped_out_of_domain")
                         continue
                     try:
@@ -1045,7 +1048,8 @@ def oracle_update(ctx):
         for _ in range(8):
             p = generalise(rng, rng.choice(allp)) if allp and rng.random() < 0.8 else gen_pattern(rng, 0.0, 4)
             pats.append((p, gen_subs(rng, p, odd=0)))
-        pats = [(p, s) for p, s in pats if in_domain(p) and all(in_domain(v) for v in s.values() if v)]
+        pats = [(p, s) for p, s in pats if in_domain(p) and all(in_domain(v) for v in s.values() if v)
+                and in_domain(expand_subs(p, s))]
         with tempfile.TemporaryDirectory(prefix="verif-c17-") as tmp:
             make_tree(tree, tmp)
             with contextlib.chdir(tmp):
